@@ -179,4 +179,17 @@ CHECKS = {
             R("TestC11_Insert", 30000, 1000000, shards=8),
         ],
     ),
+    "C12": dict(
+        level="exploration",
+        rule=("RowBuilder: rapid draws a log-/transaction-/trace-indexing declaration with 1..3 filters over every operator x value kind (bytes/address: contains, !contains, eq, ne with 1-3 args; strings: the same; 64-bit fields and uint256 inputs/fields: eq, ne, gt, lt with the argument at a pivot from {3, 255, 256, 2^64-1, 2^64, 2^128+5, 2^256-2} and chain values planted at pivot-1/pivot/pivot+1), both aggregations and the default, "
+              "optional reference filter (contains/!contains against a scripted referenced-table content), passes it through ValidateFix and dig.New, and feeds generated blocks to Integration.Insert; the emitted row multiset must equal the projection under the reference predicate. "
+              "Pushdown: log-indexing declarations (mostly with a log_addr filter of any operator) through the full wire path twice: against a node that applies the eth_getLogs address/topics and one that ignores them; both tables must equal the projection (which knows nothing of pushdown) and the filtered run must not lose a row of the unfiltered one. "
+              "non-trivial = >= 2 filters (and/or matter), or a negated / 'or'-aggregated log_addr filter."),
+        assumptions=["'contains' on byte strings is substring containment (selector matching on tx_input), on strings membership in the argument list; eq/ne/gt/lt on integers use the first argument",
+                     "filters are attached to selected inputs / declared block fields only"],
+        units=[
+            R("TestC12_RowBuilder", 24000, 600000, shards=16),
+            R("TestC12_Pushdown", 1600, 40000, shards=16),
+        ],
+    ),
 }
